@@ -326,16 +326,24 @@ def Code.imulCode (a f : Code) : Except Err Code :=
   let dd ← doubleDecoding a.dec f.dec
   pure ⟨matMul f.enc a.enc a.nm, dd, f.nq, a.nm⟩
 
+/-- `scipy.sparse.kron(scipy.sparse.identity(n), A)` for a matrix `A` with `an` columns: `n`
+diagonal blocks (and the number of columns) -/
+def kronEye (n : Nat) (A : Mat) (an : Nat) : Mat × Nat :=
+  (List.range n).foldl (fun (acc : Mat × Nat) _ => (blockDiag acc.1 acc.2 A an, acc.2 + an)) (([] : Mat), 0)
+
+/-- the loop `for index in numpy.arange(1, factor): self.decoder = numpy.append(self.decoder,
+shift_decoder(tmp_decoder, index * self.n_qubits))` with `m = factor - 1` iterations -/
+def repeatDecoder (d : List DEntry) (nq m : Nat) : Except Err (List DEntry) :=
+  (List.range m).foldlM (fun acc i => do
+    let sd ← shiftDecoder d ((i + 1) * nq)
+    pure (acc ++ sd)) d
+
 /-- `__imul__` with an integer (appending the code to itself) -/
 def Code.imulInt (a : Code) (k : Int) : Except Err Code :=
   if k < 1 then .error .valueError else do
   let n := k.toNat
-  let enc := (List.range n).foldl (fun (acc : Mat × Nat) _ =>
-      (blockDiag acc.1 acc.2 a.enc a.nm, acc.2 + a.nm)) (([] : Mat), 0)
-  let dec ← (List.range (n - 1)).foldlM (fun acc i => do
-      let sd ← shiftDecoder a.dec ((i + 1) * a.nq)
-      pure (acc ++ sd)) a.dec
-  pure ⟨enc.1, dec, a.nq * n, a.nm * n⟩
+  let dec ← repeatDecoder a.dec a.nq (n - 1)
+  pure ⟨(kronEye n a.enc a.nm).1, dec, a.nq * n, a.nm * n⟩
 
 /-! ## binary_codes.py -/
 
